@@ -139,6 +139,9 @@ def run(ctx):
     ctx.rule("C09.R6", "A10 append-buffer discipline: VCF readers reset their line buffer before every appended line")
     a10.discipline_rule(ctx, "C09.R6", r"^<?noodles_vcf::", 8)
 
+    ctx.rule("C09.R10", "A10 writer scratch buffer: the async VCF writer clears its line buffer on every path before the inner writer fills it")
+    a10.scratch_buffer_rule(ctx, "C09.R10", r"^<?noodles_vcf::", 2)
+
     ctx.rule("C09.R7", "A5d unit decoder per window: UTF-8 validation of the bytes of one fill_buf window inside a scanning loop must not make its "
                       "error final — a character may straddle two windows (zero or more sites; each must carry the incomplete tail over)")
     n8 = 0
